@@ -18,13 +18,16 @@ def sh(cmd, cwd):
 rc = sh([sys.executable, os.path.join(HERE, "extract.py")], VERIF)
 if rc != 0:
     print("extract.py reported failures (checks will report them)")
-rc = sh(["lake", "build"], os.path.join(VERIF, "lean"))
+sh([sys.executable, os.path.join(HERE, "genlean.py")], VERIF)
+import glob
+exes = ["smd_" + os.path.basename(p)[:-5] for p in glob.glob(os.path.join(VERIF, "lean", "SophiaModel", "Driver", "C*.lean"))]
+rc = sh(["lake", "build", "SophiaModel", "SophiaProofs"] + exes, os.path.join(VERIF, "lean"))
 if rc != 0:
     print("lake build failed (checks will report it)")
 lock = os.path.join(VERIF, "harness", "Cargo.lock")
 if not os.path.exists(lock) and os.path.exists("/repo/Cargo.lock"):
     shutil.copy("/repo/Cargo.lock", lock)
-rc = sh(["cargo", "build", "--offline"], os.path.join(VERIF, "harness"))
+rc = sh(["cargo", "build", "--offline", "--workspace", "--keep-going"], os.path.join(VERIF, "harness"))
 if rc != 0:
     print("cargo build failed (checks will report it)")
 sys.exit(0)
